@@ -138,11 +138,11 @@ PROPS = {
                 rule="every ordered pair of universe terms x every prior substitution (and every session of 2-3 unifications), enumerated by TLC; "
                      "non-trivial = the Unify machine takes at least one deref/bind/decompose/list step; distinct by (terms, prior)",
                 assumptions=UNIFY_ASSUME),
-    "C07": dict(jobs=["unify-laws", "unify-plain", "trace-unify"], level="model_checking",
-                rule="every ordered pair x prior of the universe; the implementation is run in both orders (as written and after recreate_variables) and compared with itself and with the model's Symmetric invariant",
+    "C07": dict(jobs=["unify-laws", "unify-plain", "trace-unify", "solver-lists"], level="model_checking",
+                rule="(solver-lists: head / goal unification in the search -- open and closed list patterns in heads against open and closed lists in goals) every ordered pair x prior of the universe; the implementation is run in both orders (as written and after recreate_variables) and compared with itself and with the model's Symmetric invariant",
                 assumptions=UNIFY_ASSUME),
-    "C08": dict(jobs=["unify-sess", "unify-plain", "solver-alias", "trace-unify"], level="model_checking",
-                rule="all sessions of 2-3 unifications over variables/terms of the session universe plus all single unifications under aliasing priors; after every real unify() the returned substitution set is walked with a visited set",
+    "C08": dict(jobs=["unify-sess", "unify-plain", "solver-alias", "trace-unify", "solver-deep"], level="model_checking",
+                rule="(solver-deep: recursions 60-70 levels deep whose two handed-down arguments lead to the same variable -- at the bottom two variables are unified that are aliased through that many links already) all sessions of 2-3 unifications over variables/terms of the session universe plus all single unifications under aliasing priors; after every real unify() the returned substitution set is walked with a visited set",
                 assumptions=UNIFY_ASSUME),
     "C09": dict(jobs=["unify-plain", "unify-sess", "unify-laws", "trace-unify", "solver-anon"], level="model_checking",
                 rule="(solver-anon: $_ in the search itself -- facts whose heads have $_ against goals with constants, goals with $_ against heads with constants, variables and $_, as queries and in rule bodies before and after goals that bind: the answers of the reference search) the cases of C06/C08 that contain $_ (argument, list element, list tail, nested); non-trivial as for C06",
